@@ -31,6 +31,8 @@ pub struct VaultRun {
     pub collector: Addr,
     pub adv: Addr,
     pub users: Vec<Addr>,
+    /// the vault has been handed to the borrower contract (its owner can then act inside its own loans)
+    pub adv_owns: bool,
 }
 
 pub fn vault_fee(p: u128, f: u128, b: u128) -> VaultFee {
@@ -125,7 +127,30 @@ impl VaultRun {
             w.fund(u, &asset, fund);
         }
         w.fund(&adv.clone(), &asset, fund);
-        VaultRun { w, asset, vault, lp, factory, router, collector, adv, users }
+        VaultRun { w, asset, vault, lp, factory, router, collector, adv, users, adv_owns: false }
+    }
+
+    /// the factory's owner hands the vault to the borrower contract
+    pub fn hand_to_borrower(&mut self) {
+        let owner = self.w.owner.clone();
+        let rs = self.w.exec(&owner, &self.factory.clone(), &white_whale_std::vault_network::vault_factory::ExecuteMsg::UpdateVaultConfig {
+            vault_addr: self.vault.to_string(),
+            params: UpdateConfigParams { flash_loan_enabled: None, deposit_enabled: None, withdraw_enabled: None, new_owner: Some(self.adv.to_string()), new_vault_fees: None, new_fee_collector_addr: None } }, &[]);
+        assert!(rs.is_ok(), "hand over: {}", rs.err());
+        self.adv_owns = true;
+    }
+
+    /// an owner's update: through the factory, or - when the borrower contract owns the vault - forwarded by it
+    pub fn owner_update(&mut self, sender: &Addr, by_owner: bool, params: UpdateConfigParams) -> Res {
+        if self.adv_owns && by_owner {
+            let msg: CosmosMsg = WasmMsg::Execute { contract_addr: self.vault.to_string(),
+                msg: to_json_binary(&white_whale_std::vault_network::vault::ExecuteMsg::UpdateConfig(params)).unwrap(), funds: vec![] }.into();
+            self.w.exec(sender, &self.adv.clone(), &AdvExecute::Forward { msg }, &[])
+        } else if self.adv_owns {
+            self.w.exec(sender, &self.vault.clone(), &white_whale_std::vault_network::vault::ExecuteMsg::UpdateConfig(params), &[])
+        } else {
+            self.w.exec(sender, &self.factory.clone(), &white_whale_std::vault_network::vault_factory::ExecuteMsg::UpdateVaultConfig { vault_addr: self.vault.to_string(), params }, &[])
+        }
     }
 
     fn fee_q(&self, q: &QueryMsg) -> u128 {
@@ -242,7 +267,15 @@ fn simple_script(r: &mut StdRng, p: &VaultRun, amt: u128) -> Vec<Atom> {
     // a forged AfterTrade callback: old balance 0 or the real one, a loan amount from nothing to far beyond the vault
     let bal = p.w.balance(&p.vault, &p.asset);
     let fcb = Atom::Callback { old: Uint128::new(if r.gen_bool(0.5) { 0 } else { bal }), x: Uint128::new(match r.gen_range(0..4) { 0 => 0, 1 => amt, 2 => bal.saturating_mul(1000), _ => gen::amount(r, bal.max(2)) }) };
-    match r.gen_range(0..16) {
+    // the owner's switches, flipped from inside the call-back (only an owner-borrower may; anybody else fails its transaction)
+    let sw = |r: &mut StdRng| -> Option<bool> { match r.gen_range(0..3) { 0 => None, 1 => Some(true), _ => Some(false) } };
+    let pause = Atom::Pause { d: sw(r), w: sw(r), l: sw(r) };
+    let dep = Atom::Deposit { x: Uint128::new(gen::amount(r, amt.max(2000))) };
+    match r.gen_range(0..20) {
+        16 => vec![pause, rep],
+        17 => vec![pause, dep, rep],
+        18 => vec![Atom::Pause { d: None, w: None, l: Some(false) }, dep, rep],
+        19 => vec![rep, pause],
         14 => vec![fcb, rep],
         15 => vec![rep, fcb],
         0 => vec![Atom::Fail {}],
@@ -277,9 +310,11 @@ pub fn run_random(rec: &mut Rec, seed: u64, run: u64, nops: usize) {
     let scales: [u128; 6] = [5_000, 1_000_000, 1_000_000_000_000, 1u128 << 64, 1_000_000_000_000_000_000_000_000, 1u128 << 100];
     let scale = *gen::pick(&mut r, &scales);
     let mut p = VaultRun::new(native, fees, fund);
+    // in every sixth history the vault belongs to the borrower contract: an owner that takes loans from its own vault
+    if run % 6 == 5 { p.hand_to_borrower(); }
     rec.emit(json!({
         "ev": "reset", "suite": "vault", "run": run, "seed": seed.to_string(), "ops": nops,
-        "cfg": {"kind": p.asset.kind()}, "obs": p.obs(),
+        "cfg": {"kind": p.asset.kind(), "adv_owns": p.adv_owns}, "obs": p.obs(),
     }));
     let mut last_minted: Option<(usize, u128)> = None;
     for step in 0..nops {
@@ -393,12 +428,8 @@ pub fn run_random(rec: &mut Rec, seed: u64, run: u64, nops: usize) {
                 let (d, w, l) = (sw(&mut r), sw(&mut r), sw(&mut r));
                 let by_owner = r.gen_bool(0.85);
                 let sender = if by_owner { p.w.owner.clone() } else { p.users[ui].clone() };
-                let msg = white_whale_std::vault_network::vault_factory::ExecuteMsg::UpdateVaultConfig {
-                    vault_addr: p.vault.to_string(),
-                    params: UpdateConfigParams { flash_loan_enabled: l, deposit_enabled: d, withdraw_enabled: w, new_owner: None, new_vault_fees: None, new_fee_collector_addr: None },
-                };
                 dpre = p.w.digest();
-                rs = p.w.exec(&sender, &p.factory.clone(), &msg, &[]);
+                rs = p.owner_update(&sender, by_owner, UpdateConfigParams { flash_loan_enabled: l, deposit_enabled: d, withdraw_enabled: w, new_owner: None, new_vault_fees: None, new_fee_collector_addr: None });
                 dpost = p.w.digest();
                 name = "settog";
                 actor = if by_owner { "owner".into() } else { USERS[ui].into() };
@@ -417,15 +448,10 @@ pub fn run_random(rec: &mut Rec, seed: u64, run: u64, nops: usize) {
                 };
                 let by_owner = r.gen_bool(0.85);
                 let sender = if by_owner { p.w.owner.clone() } else { p.users[ui].clone() };
-                let msg = white_whale_std::vault_network::vault_factory::ExecuteMsg::UpdateVaultConfig {
-                    vault_addr: p.vault.to_string(),
-                    params: UpdateConfigParams {
-                        flash_loan_enabled: None, deposit_enabled: None, withdraw_enabled: None, new_owner: None,
-                        new_vault_fees: Some(vault_fee(f[0], f[1], f[2])), new_fee_collector_addr: None,
-                    },
-                };
                 dpre = p.w.digest();
-                rs = p.w.exec(&sender, &p.factory.clone(), &msg, &[]);
+                rs = p.owner_update(&sender, by_owner, UpdateConfigParams {
+                        flash_loan_enabled: None, deposit_enabled: None, withdraw_enabled: None, new_owner: None,
+                        new_vault_fees: Some(vault_fee(f[0], f[1], f[2])), new_fee_collector_addr: None });
                 dpost = p.w.digest();
                 name = "setfees";
                 actor = if by_owner { "owner".into() } else { USERS[ui].into() };
@@ -484,7 +510,10 @@ pub fn run_random(rec: &mut Rec, seed: u64, run: u64, nops: usize) {
                         let kept = |p: &VaultRun, x: u128| -> u128 { p.payback(x).map(|q| q.protocol_fee.u128() + q.flash_loan_fee.u128()).unwrap_or(0) };
                         let full = p.payback(amt).map(|q| q.payback_amount.u128()).unwrap_or(amt);
                         let sib_rep = Atom::Repay { x: Uint128::new(match r.gen_range(0..5) { 0 | 1 => full, 2 => full.saturating_sub(kept(&p, amt2)), 3 => full.saturating_sub(kept(&p, amt3)), _ => full.saturating_sub(1) }.max(1)) };
-                        match r.gen_range(0..10) {
+                        match r.gen_range(0..12) {
+                            // a nested loan repaid exactly, a fee collection (anybody may ask for one), then the outer repayment
+                            // exact or short by what the nested loan left in the vault
+                            10 | 11 => vec![Atom::Loan { x: Uint128::new(amt2), sub: exact(&p, amt2) }, Atom::Collect {}, sib_rep],
                             8 => vec![Atom::Loan { x: Uint128::new(amt2), sub: exact(&p, amt2) }, Atom::Loan { x: Uint128::new(amt3), sub: exact(&p, amt3) }, sib_rep],
                             // ... and a chain three deep
                             9 => vec![Atom::Loan { x: Uint128::new(amt2), sub: vec![Atom::Loan { x: Uint128::new(amt3), sub: exact(&p, amt3) }, Atom::Repay { x: Uint128::new(p.payback(amt2).map(|q| q.payback_amount.u128()).unwrap_or(amt2)) }] }, sib_rep],
